@@ -779,10 +779,18 @@ func (x *VC) evCall(e *SExpr, env *SEnv) *Val {
 			if a.K != KSlice || b.K != KSlice {
 				x.specFail(e, "%s needs two slices", name)
 			}
-			if name == "sameSlice" {
-				return bval(sAnd(sEq(a.Arr, b.Arr), sEq(a.Off, b.Off), sEq(a.Len, b.Len)))
+			// a slice presented at offset 0 stands for (RawArr, RawOff): the relation is about the backing arrays
+			aArr, aOff, bArr, bOff := a.Arr, a.Off, b.Arr, b.Off
+			if a.RawArr != "" {
+				aArr, aOff = a.RawArr, a.RawOff
 			}
-			return bval(sAnd(sEq(a.Arr, b.Arr), x.cmpS("<=", b.Off, a.Off), sEq(x.addS(a.Off, a.Len), x.addS(b.Off, b.Len))))
+			if b.RawArr != "" {
+				bArr, bOff = b.RawArr, b.RawOff
+			}
+			if name == "sameSlice" {
+				return bval(sAnd(sEq(aArr, bArr), sEq(aOff, bOff), sEq(a.Len, b.Len)))
+			}
+			return bval(sAnd(sEq(aArr, bArr), x.cmpS("<=", bOff, aOff), sEq(x.addS(aOff, a.Len), x.addS(bOff, b.Len))))
 		case "spawned":
 			// number of `go f()` statements executed for f (by SSA function name)
 			if args[0].Op != "str" {
@@ -821,6 +829,21 @@ func (x *VC) evCall(e *SExpr, env *SEnv) *Val {
 		case "contains":
 			a, b := x.ev(args[0], env), x.ev(args[1], env)
 			return bval("(str.contains " + a.T + " " + b.T + ")")
+		case "visited":
+			// visited(k): key k was already handed out by the (single) map range loop of this function
+			var it *iterState
+			n := 0
+			for _, i := range x.iters {
+				if i != nil && i.kind == "map" {
+					it = i
+					n++
+				}
+			}
+			if n != 1 || it.seen == "" {
+				x.specFail(e, "visited(k) needs exactly one map range loop in the function (found %d)", n)
+			}
+			k := x.ev(args[0], env)
+			return bval(sSel(it.seen, k.T))
 		case "replaceAll":
 			a, b, c := x.ev(args[0], env), x.ev(args[1], env), x.ev(args[2], env)
 			return x.scalar("(str.replace_all "+a.T+" "+b.T+" "+c.T+")", types.Typ[types.String])
@@ -1278,6 +1301,11 @@ func (fr *Frame) loopVars(h *ssa.BasicBlock, st *State) map[string]*Val {
 				if v, ok := st.C[a]; ok {
 					if _, exists := vars[a.Comment]; !exists {
 						vars[a.Comment] = v
+					}
+				} else if pv, ok := fr.vals[a]; ok && pv.K == KScalar && (b == h || b.Dominates(h)) {
+					// a local whose address escapes lives on the heap: its name denotes the object (fields by auto-deref)
+					if _, exists := vars[a.Comment]; !exists {
+						vars[a.Comment] = pv
 					}
 				}
 			}
@@ -1850,6 +1878,10 @@ func (x *VC) topEnv(fr *Frame, res []*Val, st *State) *SEnv {
 			if a, ok := ins.(*ssa.Alloc); ok && a.Comment != "" {
 				if v, ok := st.C[a]; ok {
 					env.vars[a.Comment] = v
+				} else if pv, ok := fr.vals[a]; ok && pv.K == KScalar {
+					if _, exists := env.vars[a.Comment]; !exists {
+						env.vars[a.Comment] = pv
+					}
 				}
 			}
 		}
@@ -1857,6 +1889,42 @@ func (x *VC) topEnv(fr *Frame, res []*Val, st *State) *SEnv {
 	for i, p := range fr.fn.Params {
 		if i < len(fr.params) {
 			env.vars[p.Name()] = fr.params[i]
+		}
+	}
+	// named locals with a single definition (ensures-local clauses may mention them)
+	amb := map[string]bool{}
+	cand := map[string]*Val{}
+	candV := map[string]ssa.Value{}
+	for _, b := range fr.fn.Blocks {
+		for _, ins := range b.Instrs {
+			d, ok := ins.(*ssa.DebugRef)
+			if !ok || d.IsAddr {
+				continue
+			}
+			id, ok := d.Expr.(*ast.Ident)
+			if !ok || id.Name == "_" {
+				continue
+			}
+			if _, isPhi := d.X.(*ssa.Phi); isPhi {
+				amb[id.Name] = true
+				continue
+			}
+			v, ok := fr.vals[d.X]
+			if !ok {
+				continue
+			}
+			if pv, seen := candV[id.Name]; seen && pv != d.X {
+				amb[id.Name] = true
+			}
+			cand[id.Name], candV[id.Name] = v, d.X
+		}
+	}
+	for n, v := range cand {
+		if strings.HasPrefix(n, "result") {
+			continue // `result`, `resultN` are the specification's names for the return values
+		}
+		if _, exists := env.vars[n]; !exists && !amb[n] {
+			env.vars[n] = v
 		}
 	}
 	return env
